@@ -134,13 +134,30 @@ def varsFuel : Nat := 400
 
 def sumLen (l : List Str) : Nat := (l.map List.length).sum
 
+/-- lengths of the full expansions of acyclic structured definitions, without building them: `rounds`
+iterations of `len k = Σ literal lengths + Σ len (referenced keys)` from 0 (exact once `rounds` is
+the number of definitions).  Driver device only (not a theorem): it tells when the resolved values
+are too large to be built by the model — the doubling definitions `v1=$(v0)$(v0), v2=$(v1)$(v1), …`
+reach 2^n characters. -/
+def expLens (env : Vars.SEnv) : Nat → List (Str × Nat)
+  | 0 => env.map (fun e => (e.1, 0))
+  | r + 1 =>
+    let prev := expLens env r
+    env.map (fun e => (e.1, e.2.foldl (fun a sg => match sg with
+      | .lit t => a + t.length
+      | .ref b => a + (match prev.find? (fun kv => kv.1 == b) with | some kv => kv.2 | none => 0)) 0))
+
+def maxExpLen (env : Vars.SEnv) : Nat := (expLens env env.length).foldl (fun a kv => max a kv.2) 0
+
+/-- above this predicted size the model is not run (`big`) -/
+def bigValue : Nat := 4194304
+
 /-- `at.vars` / `at.varsE`: resolveVariables on a map, any mark characters -/
 def varsOp (s : Unit) (hc hb he : String) (rest : List String) (impl : Option (List String)) : Unit × String × String :=
   let bad := (s, "bad-op", "-")
     match char? hc, char? hb, char? he, parsePairs rest with
     | some c, some b, some e, some kvs =>
       let am := Keyval.mapOfList kvs
-      let res := resolveVariablesU c b e varsFuel am
       -- structured reading (default marks only): is the set of definitions acyclic?
       let senv? : Option Vars.SEnv :=
         if c == '$' && b == '(' && e == ')' then
@@ -149,6 +166,23 @@ def varsOp (s : Unit) (hc hb he : String) (rest : List String) (impl : Option (L
       let acyclic := match senv? with
         | some env => Vars.AcyclicOk env
         | none => false
+      -- acyclic definitions whose expansion is exponentially large (doubling chains): the model is not run
+      let predicted := match senv? with
+        | some env => if acyclic then maxExpLen env else 0
+        | none => 0
+      if predicted > bigValue then
+        let verdict := match impl with
+          | none => "-"
+          | some t =>
+            match implClass t with
+            -- the allocation is exponential in the number of definitions: when the implementation runs out of
+            -- memory / time on it the clause is `resolve_alloc_exponential` (known finding), not `terminates`
+            | .error .hang => "FAIL:resolve_alloc_exponential"
+            | .error .std => "FAIL:resolve_alloc_exponential"
+            | _ => classVerdict impl
+        (s, "big " ++ toString predicted, verdict)
+      else
+      let res := resolveVariablesU c b e varsFuel am
       let verdict := match impl with
         | none => "-"
         | some t =>
@@ -343,6 +377,7 @@ def step (s : Unit) (op : List String) (impl : Option (List String)) : Unit × S
     | none => bad
   | "dt.edit" :: _ => (s, "?", classVerdict impl)
   | "at.opts" :: _ => (s, "?", classVerdict impl)
+  | "ap.vec" :: _ => (s, "?", classVerdict impl)
   | "nc.vec" :: _ => (s, "?", classVerdict impl)
   | "nc.seq" :: _ => (s, "?", classVerdict impl)
   | "ct.parse" :: _ => (s, "?", classVerdict impl)
